@@ -136,7 +136,7 @@ func runC03(c *core.Ctx) {
 			o.Sites = len(written[k]) + len(read[k]) + 1
 		}
 	}
-	c.Floor("R03.1", "checkpoint fields", nf, 19)
+	c.Floor("R03.1", "checkpoint fields", nf, 10)
 
 	// ---- R03.1 per implementation: Save writes ⊆ Resume reads
 	bowlPkg := c.P.Pkg("pwr/bowl")
@@ -176,7 +176,7 @@ func runC03(c *core.Ctx) {
 			}
 		}
 	}
-	c.Floor("R03.1", "Save/Resume implementation pairs", nImpl, 5)
+	c.Floor("R03.1", "Save/Resume implementation pairs", nImpl, 3)
 
 	// ---- R03.2 / R03.8 / R03.5 in the series loops
 	for _, name := range []string{"savingPatcher.processRsync", "savingPatcher.processBsdiff"} {
@@ -249,10 +249,7 @@ func runC03(c *core.Ctx) {
 				"the reader is asked for a checkpoint when the consumer wants one", "WantSave is not requested on the ShouldSave()==true edge")
 			c.Check(core.InstrDominates(want, pop) && hasGuard(pop, func(g core.Guard) bool { return g.Cond == ssa.Value(should.(*ssa.Call)) && g.Val }), "R03.8", fname, "PopCheckpoint after WantSave", core.InstrPos(pop),
 				"the checkpoint is popped after it was requested", "PopCheckpoint is not executed after WantSave on the ShouldSave edge")
-			c.Check(core.InstrDominates(pop, save) && hasGuard(save, func(g core.Guard) bool {
-				bo, ok := g.Cond.(*ssa.BinOp)
-				return ok && bo.Op == token.NEQ && g.Val && bo.X == ssa.Value(pop.(*ssa.Call)) && core.IsNilConst(bo.Y)
-			}), "R03.8", fname, "popped checkpoint is offered to SaveConsumer.Save", core.InstrPos(save),
+			c.Check(core.InstrDominates(pop, save) && guardedNonNil(pop.(*ssa.Call), save), "R03.8", fname, "popped checkpoint is offered to SaveConsumer.Save", core.InstrPos(save),
 				"Save is called when PopCheckpoint returned a checkpoint", "a popped checkpoint is not handed to the save consumer")
 			// every loop iteration asks: from the loop's message read back to itself
 			var loopRead ssa.Instruction
@@ -302,18 +299,7 @@ func runC03(c *core.Ctx) {
 				"a series can end successfully without writer.Finalize(): an overlay stream then lacks its end marker and stale bytes after a resumed, shorter stream are applied").Path = c.P.PathStrings(p)
 			for _, fz := range allInstrs(fn, isFinalize) {
 				fc := fz.(*ssa.Call)
-				skipNil := func(b, s *ssa.BasicBlock) bool {
-					ifi, ok := b.Instrs[len(b.Instrs)-1].(*ssa.If)
-					if !ok {
-						return false
-					}
-					bo, ok := ifi.Cond.(*ssa.BinOp)
-					if !ok || !core.IsNilConst(bo.Y) || !loadsStoredResult(bo.X, fc) {
-						return false
-					}
-					return (bo.Op == token.EQL && s == b.Succs[0]) || (bo.Op == token.NEQ && s == b.Succs[1])
-				}
-				p2 := core.FindPathSkipping(fn, fz, isInstr(rs.Ret), nil, skipNil)
+				p2 := ungatedPath(fn, fc, rs.Ret, nil)
 				c.Check(p2 == nil, "R03.5", fname, "Finalize error is checked", core.InstrPos(fz),
 					"the success return is reachable from Finalize only through its nil outcome", "the series reports success although writer.Finalize() failed").Path = c.P.PathStrings(p2)
 			}
@@ -368,18 +354,7 @@ func runC03(c *core.Ctx) {
 					"every path to the checkpoint-returning return syncs the file", "a checkpoint offset can be reported before the data is durable: after a crash the file is shorter than the checkpoint claims").Path = c.P.PathStrings(p)
 				for _, sy := range allInstrs(save, isSync) {
 					syc := sy.(*ssa.Call)
-					skipNil := func(b, s *ssa.BasicBlock) bool {
-						ifi, ok := b.Instrs[len(b.Instrs)-1].(*ssa.If)
-						if !ok {
-							return false
-						}
-						bo, ok := ifi.Cond.(*ssa.BinOp)
-						if !ok || !core.IsNilConst(bo.Y) || !loadsStoredResult(bo.X, syc) {
-							return false
-						}
-						return (bo.Op == token.EQL && s == b.Succs[0]) || (bo.Op == token.NEQ && s == b.Succs[1])
-					}
-					p2 := core.FindPathSkipping(save, sy, isInstr(rs.Ret), nil, skipNil)
+					p2 := ungatedPath(save, syc, rs.Ret, nil)
 					c.Check(p2 == nil, "R03.3", core.FnName(save), "Sync error is checked", core.InstrPos(sy),
 						"the checkpoint is returned only on the nil outcome of Sync", "a checkpoint is returned although Sync failed").Path = c.P.PathStrings(p2)
 				}
@@ -594,7 +569,7 @@ func runC03(c *core.Ctx) {
 					"the append is reached only when the loop over the list finished without a match", "the append is not protected by a completed search for the same key: a file re-processed after resume is recorded twice and Commit fails on the second move/overlay")
 			})
 		}
-		c.Floor("R03.6", "appends to overlay bowl work lists", nApp, 3)
+		c.Floor("R03.6", "appends to overlay bowl work lists", nApp, 1)
 	}
 
 	// ---- R03.7
